@@ -175,28 +175,41 @@ def r07_2(ctx, rr):
             gets.append(n)
         if cn == "ShardEdge::edge":
             gets.append(("GLOBAL", n))
-    Walker(F, a, on_node=on_node).run()
+    Wa = Walker(F, a, on_node=on_node)
+    Wa.run()
     rr.instances += 1
     rr.check(len(sets) == 1 and any(not isinstance(x, tuple) or x[0] != "GLOBAL" for x in gets) and not any(isinstance(x, tuple) and x[0] == "GLOBAL" for x in gets), "VBuilder::assign:local_edge", "assign must address the shard's chunk through local_edge(), never through the global edge()", a.span)
     if sets:
-        idx_t, val_t = sets[0][1], sets[0][2]
+        idx_t, val_t = Wa.expand(sets[0][1]), Wa.expand(sets[0][2])
+        # the side: the variable on which index and value depend besides the edge and the value; for each side
+        # k in 0..3 the specialised index must be local_edge(..)[k] and the value `val ^ data[e_i] ^ data[e_j]`
+        # with {i, j} the other two (whatever the syntax: match, if-chain, a pair of indices picked first)
+        def is_edge_cell(x):
+            return x[0] == "index" and x[1][0] == "call" and x[1][1] == "ShardEdge::local_edge" and x[2][0] == "int"
+        side_vars = set()
+        for x in subterms(idx_t):
+            if x and x[0] == "index" and x[1][0] == "call" and x[1][1] == "ShardEdge::local_edge" and x[2][0] != "int":
+                side_vars.add(x[2])
+        for x in subterms(val_t):
+            if x and x[0] == "op" and len(x) == 4 and x[1] == "==" and (x[2][0] == "int" or x[3][0] == "int"):
+                side_vars.add(x[3] if x[2][0] == "int" else x[2])
         rr.instances += 1
-        ok = idx_t[0] == "index" and idx_t[1][0] == "call" and idx_t[1][1] == "ShardEdge::local_edge"
-        rr.check(ok, "VBuilder::assign:writes-edge[side]", "assign must store into cell local_edge(sig)[side]; found index %s" % tshow(idx_t)[:160], a.span)
-        # value: match side { 0 => data[e1]^data[e2], 1 => data[e0]^data[e2], 2 => data[e0]^data[e1] } ^ val
-        arms = []
-        for n in walk(a.body):
-            # the match on the side: its scrutinee is the local that indexes local_edge(..) in the store
-            side_ids = [y["i"]["id"] for x in walk(a.body) if x.get("k") == "MethodCall" and x["name"] == "set_unchecked" and x["args"]
-                        for y in [x["args"][0]] if y.get("k") == "Index" and y["i"].get("k") == "Path" and y["i"].get("res") == "local"]
-            side_id = side_ids[0] if len(side_ids) == 1 else None
-            if n.get("k") == "Match" and n.get("src") == "Normal" and n["e"].get("k") == "Path" and n["e"].get("res") == "local" and (n["e"].get("id") == side_id if side_id is not None else all(a["pat"].get("k") in ("PLit", "PWild") for a in n["arms"])):
-                for arm in n["arms"]:
-                    if arm["pat"].get("k") == "PLit":
-                        cellsx = [int(x["i"]["v"]) for x in walk(arm["body"]) if x.get("k") == "Index" and x["i"].get("k") == "Lit"]
-                        arms.append((int(arm["pat"]["v"]), sorted(cellsx)))
+        ok_idx = True
+        per_side = []
+        if len(side_vars) != 1:
+            ok_idx = False
+        else:
+            sv = list(side_vars)[0]
+            for k_ in range(3):
+                it = specialise(idx_t, sv, ("int", k_))
+                vt = specialise(val_t, sv, ("int", k_))
+                ok_idx = ok_idx and is_edge_cell(it) and it[2] == ("int", k_)
+                cells_ = sorted(x[2][1][2][1] for x in xor_operands(vt) if x[0] == "call" and x[1].endswith("get_unchecked") and len(x[2]) == 2 and is_edge_cell(x[2][1]))
+                others = [x for x in xor_operands(vt) if not (x[0] == "call" and x[1].endswith("get_unchecked"))]
+                per_side.append((k_, cells_, len(others)))
+        rr.check(ok_idx, "VBuilder::assign:writes-edge[side]", "assign must store into cell local_edge(sig)[side]; found index %s" % tshow(idx_t)[:160], a.span)
         rr.instances += 1
-        rr.check(sorted(arms) == [(0, [1, 2]), (1, [0, 2]), (2, [0, 1])], "VBuilder::assign:xor-other-two", "assign must XOR the value with the two *other* cells of the edge for each side; found %s" % sorted(arms), a.span)
+        rr.check(per_side == [(0, [1, 2], 1), (1, [0, 2], 1), (2, [0, 1], 1)], "VBuilder::assign:xor-other-two", "assign must XOR the value with the two *other* cells of the edge for each side; found (side, cells, other operands) %s" % per_side, a.span)
     # par_solve chunks the data by num_vertices and zips with the shards
     p = F.one(r"^func::vbuilder::VBuilder::<W, D, S, E>::par_solve$")
     tc = [n for n in walk(p.body) if n.get("k") == "MethodCall" and n["name"] == "try_chunks_mut"]
